@@ -27,6 +27,17 @@ class UM(Mixin, ValueError):
     pass
 class UM2(Mixin, UE, IndexError):
     pass
+class CMF:
+    # a context manager whose __enter__ raises: __exit__ must not run
+    def __init__(self, tag, sup):
+        self.tag = tag
+        self.sup = sup
+    def __enter__(self):
+        _log.append(self.tag + ':enter-raises')
+        raise UE('enter')
+    def __exit__(self, t, v, tb):
+        _log.append(self.tag + ':exit')
+        return self.sup
 class CM:
     def __init__(self, tag, sup):
         self.tag = tag
@@ -143,7 +154,9 @@ func (c *c02Gen) exitAction(cx c02Ctx) string {
 	if cx.guarded {
 		c.crosses = true
 	}
-	return fmt.Sprintf("if k == %d: %s\n", j, act)
+	// exit j is taken when bit j-1 of k is set: one call can take several exits in a row
+	// (an exception, then what its handler does, then what the finally body does)
+	return fmt.Sprintf("if k & %d: %s\n", 1<<uint(j-1), act)
 }
 
 func (c *c02Gen) block(cx c02Ctx, minStmts int) string {
@@ -246,7 +259,23 @@ func (c *c02Gen) block(cx c02Ctx, minStmts int) string {
 						head = "except Exception:"
 					}
 				}
-				sb.WriteString(head + "\n" + Indent(fmt.Sprintf("_log.append(%d)\n", c.nid())+c.block(hc, 0), 4))
+				hbody := fmt.Sprintf("_log.append(%d)\n", c.nid())
+				if g.Chance(1, 4) {
+					// a with block that sees an exception of its own while the handler's exception is being handled
+					c.kinds["with-exception-inside-handler"] = true
+					if g.Bool() {
+						hbody += fmt.Sprintf("with CM('w%d', True):\n    raise UE('inner')\n", c.nid())
+					} else {
+						hbody += fmt.Sprintf("try:\n    with CM('w%d', False):\n        raise UE('inner')\nexcept UE:\n    _log.append(%d)\n", c.nid(), c.nid())
+					}
+				}
+				hbody += c.block(hc, 0)
+				if g.Chance(1, 4) {
+					// ... and the handler's exception is re-raised afterwards
+					c.kinds["bare-raise-at-end-of-handler"] = true
+					hbody += "raise\n"
+				}
+				sb.WriteString(head + "\n" + Indent(hbody, 4))
 			}
 			if nh > 0 && g.Chance(1, 3) {
 				c.kinds["try-else"] = true
@@ -270,7 +299,10 @@ func (c *c02Gen) block(cx c02Ctx, minStmts int) string {
 				c.r.On("c02.with.exit_truthy_nonbool")
 				sup = g.Str("False", "True", "None")
 			}
-			if g.Chance(1, 3) {
+			if g.Chance(1, 8) {
+				c.kinds["with-enter-raises"] = true
+				fmt.Fprintf(&sb, "with %s('w%d', %s), %s('w%d', True) as m:\n", g.Str("CM", "CMF"), c.nid(), sup, g.Str("CMF", "CM", "CMF"), c.nid())
+			} else if g.Chance(1, 3) {
 				fmt.Fprintf(&sb, "with CM('w%d', %s), CM('w%d', %s) as m:\n", c.nid(), sup, c.nid(), g.Str("False", "True"))
 			} else if g.Bool() {
 				fmt.Fprintf(&sb, "with CM('w%d', %s) as m:\n", c.nid(), sup)
@@ -290,7 +322,7 @@ func TestC02(t *testing.T) {
 	defer r.Finish()
 	r.Extra("rule", "random nestings (depth<=4) of for/while(+else), if/elif/else, try/except/else/finally (1-3 handlers: bare, class, tuple, as), with (1-2 managers, "+
 		"generated __exit__ truthiness), with <=3 exit points (raise class/instance, return, break, continue, bare raise, raising expression) selected by a runtime input k; "+
-		"the function is called for every k. Oracle = CPython on (path log, return value/exception class) and, for the unwrapped call, exception class + traceback (function, line). "+
+		"the function is called for every k: exit j is taken when bit j-1 of k is set, so one call can take several exits in a row (an exception, then what its handler does, then what the finally body does). Oracle = CPython on (path log, return value/exception class) and, for the unwrapped call, exception class + traceback (function, line). "+
 		"Non-trivial: nesting depth>=2 with an exit action inside a finally-protected/with/loop region; distinct by program text.")
 	r.Extra("assumptions", []string{"CPython 3.6 unwinding semantics equal 3.4's for the generated subset (no continue in finally)", "tracebacks compared as (function name, line) lists"})
 	r.ReplayKnown()
@@ -298,10 +330,10 @@ func TestC02(t *testing.T) {
 		r.Infra("%v", err)
 	}
 	rapid.Check(t, func(rt *rapid.T) {
-		c := &c02Gen{g: &G{T: rt}, r: r, maxExit: 3, kinds: map[string]bool{}}
+		c := &c02Gen{g: &G{T: rt}, r: r, maxExit: 4, kinds: map[string]bool{}}
 		body := c.block(c02Ctx{depth: 1}, 2)
 		fn := "def fn(k):\n" + Indent(body, 4) + "    return 'end'\n"
-		prog := c02Prelude + fn + c02Drive + fmt.Sprintf("for k in range(%d):\n    drive(k)\n", c.exits+1)
+		prog := c02Prelude + fn + c02Drive + fmt.Sprintf("for k in range(%d):\n    drive(k)\n", 1<<uint(c.exits))
 		nt := c.maxDepth >= 2 && c.crosses
 		r.Count(fn, nt)
 		for k := range c.kinds {
@@ -319,7 +351,7 @@ func TestC02(t *testing.T) {
 			return
 		}
 		// unwrapped call through an intermediate frame: class + traceback of the escaping exception
-		k := c.g.Int(0, c.exits)
+		k := c.g.Int(0, 1<<uint(c.exits)-1)
 		prog2 := c02Prelude + fn + "def mid(k):\n    _log.append('mid')\n    return fn(k)\n" + fmt.Sprintf("_res.append(mid(%d))\n", k)
 		d2, err := PyDiff(prog2, PyDiffOpts{Vars: c02Vars, CompareTB: true})
 		if err != nil {
